@@ -141,6 +141,13 @@ def mk_norms(m0, family="norms"):
     return Case('f64', "mat.norms " + tok_mat('f64', m0), "@mat_norms SAF flat_f %s" % coq_mat('f64', m0),
                 meta={"kind": "norms", "m0": m0}, family=family, nontrivial=(r * c > 0), tol=1e-13)
 
+def mk_scale_l(m0, x, family="scale_l"):
+    r, c, _ = m0
+    t = "fl_res (@fl_mat AF flat_f) (@mscale_l AF %s %s)" % (coq_scalar('f64', x), coq_mat('f64', m0))
+    t2 = "fl_res (@fl_mat AF flat_f) (@mscale AF %s %s)" % (coq_mat('f64', m0), coq_scalar('f64', x))
+    return Case('f64', "mat.scale_l %s %s" % (tok_mat('f64', m0), tok_scalar('f64', x)), "(%s ++ %s)" % (t, t2),
+                meta={"kind": "scale_l", "m0": m0, "x": x}, family=family, nontrivial=(r * c > 0))
+
 def mk_norm_p(m0, p, family="norm_p"):
     r, c, _ = m0
     return Case('f64', "mat.norm_p %s %s" % (tok_mat('f64', m0), tok_scalar('f64', p)), None,
@@ -194,14 +201,14 @@ def rand_op(rng, elt, r, c, allow_bad=True):
     names = ["set_row", "set_col", "delete_row", "resize", "transpose_in_place", "swap_rows", "swap_elem", "fill", "fill_diag",
              "fill_band", "fill_tridiag", "fill_row", "fill_col", "set", "add_assign", "sub_assign", "mul_assign_s", "div_assign_s",
              "add_assign_s", "sub_assign_s", "get", "get_row", "get_col", "multiply", "transpose", "neg", "add", "sub", "scale", "div",
-             "mul", "mul_l", "eye", "numel", "clone_mut", "add_assign_own", "sub_assign_own"]
+             "mul", "mul_l", "eye", "numel", "clone_mut", "add_assign_own", "sub_assign_own", "clear"]
     name = names[rng.below(len(names))]
     s = lambda: val(rng, elt)
     if name == "set_row": return (name, idx(r), rvec(rng, elt, c if not bad else rng.range(0, c + 1)))
     if name == "set_col": return (name, idx(c), rvec(rng, elt, r if not bad else rng.range(0, r + 1)))
     if name == "delete_row": return (name, idx(r))
     if name == "resize": return (name, rng.range(0, 5), rng.range(0, 5))
-    if name in ("transpose_in_place", "transpose", "neg", "numel"): return (name,)
+    if name in ("transpose_in_place", "transpose", "neg", "numel", "clear"): return (name,)
     if name == "swap_rows": return (name, idx(r), idx(r))
     if name == "swap_elem":
         if r * c == 0: return ("numel",)
@@ -304,6 +311,11 @@ def generate(rng, tier):
                 cases.append(mk_norms((r, c, [float(1 + i + 10 * j) * (-1) ** (i + j) for i in range(r) for j in range(c)]), "norms-pattern"))
     # (p) every ordered pair of editing operations on 1x1, 2x2, 3x2, 2x3 (+ sampled triples in the thorough tier)
     cases += gen_op_pairs(rng, tier)
+    # (s) f64 * matrix on a few shapes; identity matrices of every size 0..B+1
+    g = rng.fork("misc")
+    for (r, c) in [(0, 0), (0, 2), (1, 1), (2, 3), (3, 2), (4, 4)]:
+        cases.append(mk_scale_l((r, c, [norm_val(g) for _ in range(r * c)]), val(g, 'f64')))
+    cases.append(mk('rat', distinct_mat(1, 1), [("eye", n) for n in range(B + 2)], "eye-sizes"))
     # (c) random histories
     g = rng.fork("hist")
     nh = 400 if tier == "thorough" else 80
@@ -325,6 +337,8 @@ def generate(rng, tier):
 def case_from_json(j):
     if j.get("meta", {}).get("kind") == "norms":
         m0 = j["meta"]["m0"]; return mk_norms((m0[0], m0[1], [float(x) for x in m0[2]]), "corpus")
+    if j.get("meta", {}).get("kind") == "scale_l":
+        m0 = j["meta"]["m0"]; return mk_scale_l((m0[0], m0[1], [float(x) for x in m0[2]]), float(j["meta"]["x"]), "corpus")
     if j.get("meta", {}).get("kind") == "norm_p":
         m0 = j["meta"]["m0"]; return mk_norm_p((m0[0], m0[1], [float(x) for x in m0[2]]), float(j["meta"]["p"]), "corpus")
     def conv(x):
@@ -352,6 +366,12 @@ def case_from_json(j):
 def oracle(case, items):
     if case.meta.get("kind") in ("norms", "norm_p"):
         return norms_oracle(case, items)
+    if case.meta.get("kind") == "scale_l":
+        r, c, vals = case.meta["m0"]; x = case.meta["x"]
+        exp = ([('i', r), ('i', c)] + [('f', f64_bits(v * x)) for v in vals]) * 2
+        if items != exp:
+            return "f64 * matrix / matrix * f64 differ from the entrywise products: got %r, expected %r" % (items[:12], exp[:12])
+        return None
     if case.elt != 'rat':
         return None
     exp = ref_hist('rat', case.meta["m0"], case.meta["ops"], eq=True)
